@@ -33,6 +33,7 @@ PAYLOADS = [
     "\x0b", "\r__pyab_sentinel__()", "s\r\t__pyab_sentinel__()",
     "US\uff02 or f != \uff02", "x\uff07 weighted 0, \uff07y", "\uff02", "\uff07", "a\uff08b\uff09", "\uff5bx\uff5d", "\uff0b", "\uff03",
     "\uff02+str(__pyab_sentinel__())+\uff02", "\ufe63", "\u2033", "\u02ba",
+    "x*/ def pwned { return 'evil' weighted 1 } /*", "*/ __pyab_sentinel__() /*", "*/", "/*", "a */ b", "// x",
     "name='f'", "name='uid'", "f", "uid", "1", "(1, 2)", "Identifier(name='f')", "0", "z",
     "it's", 'say "hi"', "plain", "\\n", "\\t'", "${x}", "`x`", "'+'", "\\'", 'a" + __pyab_sentinel__() + "b',
 ]
@@ -81,7 +82,7 @@ def cases(draw):
                 g["lit"] = M.lit_str(s, "'" if '"' in s else '"')
     iv = gen.interesting_values(prog, classes)
     inputs = [M.enc_inputs(draw(gen.inputs_for(prog, classes, iv))) for _ in range(draw(st.integers(2, 4)))]
-    return {"prog": prog, "inputs": inputs}
+    return {"prog": prog, "inputs": inputs, "noise": draw(common.noise_strategy())}
 
 
 def _twin(node):
@@ -136,6 +137,7 @@ def judge(case):
     if any("'" in s or '"' in s for s in lits):
         tags.append("quote")
     _plant()
+    tags += common.pre_noise(case)
     try:
         mine = _codes(text)
         theirs = _codes(ttext)
@@ -158,6 +160,9 @@ def judge(case):
             sut.call(res[1], M.dec_inputs(enc))
     if _calls["n"]:
         viol.append("planted sentinel was called %d time(s) while compiling / evaluating | %s" % (_calls["n"], text))
+    if viol and case.get("noise"):
+        viol = [m + " | right after the unrelated text %r was compiled" % case["noise"] for m in viol]
+        common.reset_after_violation()
     return {"viol": viol[:5], "nontrivial": nt, "tags": tags, "key": text, "sample": {"text": text[:400]}}
 
 
@@ -173,7 +178,8 @@ def fixed_cases():
                       (M.cmp_(M.ident("f"), "in", M.tup([M.lit_str(p, q), M.lit_str("z")])), M.ret([(M.lit_str("b"), "1")]))],
                      M.ret([(M.lit_str("c"), "1")]))
         yield {"prog": M.program("e", body, salt=p, splitters=["uid"], salt_q=q),
-               "inputs": [M.enc_inputs({"uid": "u1", "f": p}), M.enc_inputs({"uid": "u2", "f": "z"}), M.enc_inputs({"uid": "u3", "f": 0})]}
+               "inputs": [M.enc_inputs({"uid": "u1", "f": p}), M.enc_inputs({"uid": "u2", "f": "z"}), M.enc_inputs({"uid": "u3", "f": 0})],
+               "noise": common.NOISE_TEXTS[3 + len(p) % 3] if len(p) % 2 else None}
 
 
 def judge_spelling(case):
